@@ -382,14 +382,15 @@ def _handle_fn_body(body: list[ast.stmt], ctx: Context) -> sympy.Expr | None:
                 if isinstance(node.value, ast.Tuple):
                     # Direct unpacking like c, d = a, b
                     value_elements = node.value.elts
-                    for target, value_expr in zip(
-                        target_elements, value_elements, strict=True
-                    ):
-                        if isinstance(target, ast.Name):
-                            expr = _handle_expr(value_expr, ctx)
-                            if expr is None:
-                                return None
-                            ctx.symbols[target.id] = expr
+                    # Evaluate the whole right-hand side before binding any name
+                    exprs = [_handle_expr(i, ctx) for i in value_elements]
+                    if any(i is None for i in exprs):
+                        return None
+                    for target, expr in zip(target_elements, exprs, strict=True):
+                        if not isinstance(target, ast.Name):
+                            msg = "Only single variable assignments are supported"
+                            raise TypeError(msg)
+                        ctx.symbols[target.id] = cast(sympy.Expr, expr)
                 else:
                     # Handle potential iterable unpacking
                     value = _handle_expr(node.value, ctx)
